@@ -101,7 +101,9 @@ fn allocate_jit_memory_unix(_src: &FuncPtrInternal, code_size: usize) -> *mut u8
             if ptr != libc::MAP_FAILED {
                 let allocated = ptr as u64;
                 let diff = allocated.abs_diff(original_addr);
-                if diff <= max_range {
+                // Strictly inside the window: a trampoline at exactly +max_range is one
+                // instruction beyond the reach of an AArch64 `B` (±128MB, upper end exclusive).
+                if diff < max_range {
                     return ptr as *mut u8;
                 } else {
                     unsafe { libc::munmap(ptr, code_size) };
